@@ -107,6 +107,7 @@ type Frame struct {
 	loopHavoc map[*ssa.BasicBlock][]string
 	loopKeep  map[string]bool
 	loopHead  map[*ssa.BasicBlock]*State
+	iterStart map[*ssa.BasicBlock]*State // state at the loop head (beginning of an arbitrary iteration)
 }
 
 type rangeInfo struct {
@@ -204,6 +205,16 @@ func (e *Exec) hget(st *State, name string) string {
 // typeAxiom: every value stored in a typed heap map is a valid value of its Go type
 // (well-typed heap). Emitted for each fresh version of a field map.
 func (e *Exec) typeAxiom(name, term string, global bool, allocTerm string) {
+	if name == "GD_val" {
+		// the ghost database stores bytes
+		ax := fmt.Sprintf("(forall ((b Str) (k Str) (i Int)) (! (and (<= 0 (select (select (select %s b) k) i)) (<= (select (select (select %s b) k) i) 255)) :pattern ((select (select (select %s b) k) i))))", term, term, term)
+		if global {
+			e.sc.axiom("type:"+term, ax)
+		} else {
+			e.sc.assume("true", ax)
+		}
+		return
+	}
 	t, ok := e.heapElemType[name]
 	if !ok {
 		return
@@ -356,9 +367,11 @@ func (e *Exec) allocFact(st *State, term string, t types.Type) string {
 	a := e.hget(st, "G_alloc")
 	switch u := t.Underlying().(type) {
 	case *types.Pointer, *types.Map, *types.Chan:
-		return "(<= (root " + term + ") " + a + ")"
+		// (the second conjunct follows from the first - roots of negative references are irrelevant, the
+		// allocation counter is never negative - and spares the solver the detour through root())
+		return "(and (<= (root " + term + ") " + a + ") (<= " + term + " " + a + "))"
 	case *types.Slice:
-		return "(<= (root (s_arr " + term + ")) " + a + ")"
+		return "(and (<= (root (s_arr " + term + ")) " + a + ") (<= (s_arr " + term + ") " + a + "))"
 	case *types.Interface:
 		return "(<= (root (i_val " + term + ")) " + a + ")"
 	case *types.Struct:
@@ -1014,7 +1027,27 @@ func (e *Exec) loopInvs(fr *Frame, ord int) []*Clause {
 	if fr.fc == nil {
 		return nil
 	}
-	return fr.fc.Loops[ord]
+	var out []*Clause
+	for _, c := range fr.fc.Loops[ord] {
+		if c.Kind != "step" {
+			out = append(out, c)
+		}
+	}
+	return out
+}
+
+// loopSteps: "loop N step" clauses (postconditions of the loop body).
+func (e *Exec) loopSteps(fr *Frame, ord int) []*Clause {
+	if fr.fc == nil {
+		return nil
+	}
+	var out []*Clause
+	for _, c := range fr.fc.Loops[ord] {
+		if c.Kind == "step" {
+			out = append(out, c)
+		}
+	}
+	return out
 }
 
 func (e *Exec) specEnvAt(fr *Frame, st *State) *SpecEnv {
@@ -1090,6 +1123,19 @@ func (e *Exec) checkInvariants(fr *Frame, st *State, ord int, phase string, hdr 
 	}
 	for _, ai := range e.autoInvs(fr, st, hdr, ord) {
 		e.sc.oblig(st.reach, ai.f, fmt.Sprintf("%s#inv-%s.loop%d.%s", e.unit, phase, ord, ai.label), "inv", fmt.Sprintf("automatic loop invariant %s: %s", phase, ai.what), e.pos(hdr.Instrs[0].Pos()))
+	}
+	if phase == "preserved" {
+		if head := fr.iterStart[hdr]; head != nil {
+			senv := e.specEnvAt(fr, st)
+			senv.old = head
+			if li := fr.loopRange(hdr); li != nil {
+				senv.rng = li
+			}
+			for _, c := range e.loopSteps(fr, ord) {
+				f := e.specBool(senv, c)
+				e.sc.oblig(st.reach, f, fmt.Sprintf("%s#step.%s", e.unit, c.Label)+e.siteSuffix("step."+c.Label), "inv", fmt.Sprintf("holds at the end of every iteration: %s", c.Text), fmt.Sprintf("%s:%d", c.File, c.Line))
+			}
+		}
 	}
 }
 
@@ -1266,6 +1312,10 @@ func (e *Exec) enterLoop(fr *Frame, st *State, hdr *ssa.BasicBlock, ord int, bod
 	if !all {
 		fr.loopHead[hdr] = ns.clone()
 	}
+	if fr.iterStart == nil {
+		fr.iterStart = map[*ssa.BasicBlock]*State{}
+	}
+	fr.iterStart[hdr] = ns.clone()
 	return ns
 }
 
